@@ -359,11 +359,21 @@ def step (line : String) : String :=
   let res : Option String := do
     let n ← (← lookup kv "n").toNat?
     let L ← parseNMat n (← lookup kv "L")
+    -- optional common denominator: the lengths are `L / den` (rational); betweenness only depends on the
+    -- numerators (`C08.bc_spec_rational`), distances are printed divided by `den`
+    let den ← (match lookup kv "den" with
+      | none => some 1
+      | some d => match d.toNat? with
+        | some k => if k = 0 then none else some k
+        | none => none)
     let cells : List (Fin n × Fin n) := (List.finRange n).flatMap fun i => (List.finRange n).map fun j => (i, j)
     if op == "spec" then
       let D := dist L
       let S := sigmaOf L D
-      let ds := ",".intercalate (cells.map fun (i, j) => showON (D.get i j))
+      let ds := ",".intercalate (cells.map fun (i, j) =>
+        if (lookup kv "den").isSome then
+          (match D.get i j with | none => "inf" | some d => showRat ((d : Rat) / (den : Rat)))
+        else showON (D.get i j))
       let ss := ",".intercalate (cells.map fun (i, j) => toString (S.get i j))
       some s!"d={if n == 0 then "-" else ds} sig={if n == 0 then "-" else ss} bc={showVecR (bcOf D S)} ebc={showMatR (ebcOf L D S)}"
     else if op == "betweenness_bin" then
